@@ -5,7 +5,7 @@ from ..gen import f32bits as FB, bits_f32
 from . import _scene
 
 RULE = ("a degenerate stream built from every boundary the statement names (zero-sized surfaces; empty paths, lone MoveTo/Close, "
-        "zero-length segments, coincident control points; stroke widths 0 / negative / NaN; dash arrays empty, with zeros, "
+        "zero-length segments, coincident control points, control points that differ by denormal amounts; stroke widths 0 / negative / NaN; dash arrays empty, with zeros, "
         "summing to 0, to a negative number, to NaN, overflowing to infinity; dash offsets negative, huge, infinite, NaN; "
         "singular transforms; alpha and layer opacity outside [0,1], infinite, NaN; empty, inverted, oversize and far-away clip "
         "rectangles; source rectangles and destinations up to 2^29 away; device geometry up to +-4000 px; 1x1 images and masks; "
@@ -44,6 +44,16 @@ def deg_path(rng, W, H):
     elif c < 0.85:
         ops = ["M " + scene.fpt(*P(True)), "Q %s %s" % (scene.fpt(*P(True)), scene.fpt(*P(True))),
                "C %s %s %s K 0" % (scene.fpt(*P(True)), scene.fpt(*P()), scene.fpt(*P(True)))]
+    elif c < 0.92:
+        # control points that differ by a denormal / tiny amount: ratios of such differences underflow to 0 or overflow
+        tiny = lambda: rng.choice([1e-45, -1e-45, 1e-40, 1.2e-38, -1.2e-38, 1e-30, 0.0, -0.0])
+        x0, x1, x2 = (rng.randrange(0, 4 * max(W, 1) + 1) / 4.0 for _ in range(3))
+        big = rng.choice([1.0, 60.0, float(max(H, 1)), -3.0, 3000.0])
+        ops = ["M " + scene.fpt(x0, tiny()), "Q %s %s" % (scene.fpt(x1, tiny()), scene.fpt(x2, big))]
+        if rng.random() < 0.5:
+            ops.append("C %s %s %s K 0" % (scene.fpt(x1, big + tiny()), scene.fpt(x0, big), scene.fpt(x0, big + tiny())))
+        if rng.random() < 0.5:
+            ops = ["M " + scene.fpt(tiny(), x0), "Q %s %s" % (scene.fpt(tiny(), x1), scene.fpt(big, x2))]
     else:
         ops = scene.curvy_path(rng, max(W, 1), max(H, 1))
     return scene.path_tokens(ops, rng.randrange(2))
@@ -70,6 +80,38 @@ def deg_style(rng):
     off = rng.choice([0.0, -1.0, 1e9, -1e9, float("inf"), float("-inf"), float("nan"), 0.5, 3e38])
     return "STYLE %d %s %s %d %d %s %d" % (FB(w), rng.choice(["butt", "round", "square"]), rng.choice(["miter", "round", "bevel"]),
                                            FB(ml), len(arr), " ".join(str(FB(a)) for a in arr), FB(off))
+
+
+def path_extent(ptoks):
+    """largest |coordinate| of a path given as tokens (user space)"""
+    m = 0.0
+    t = ptoks.split()
+    i = 3
+    while i < len(t):
+        k = t[i]; i += 1
+        nn = {"M": 2, "L": 2, "Q": 4, "C": 6}.get(k, 0)
+        for v in t[i:i + nn]:
+            f = bits_f32(int(v))
+            if f == f and abs(f) != float("inf"):
+                m = max(m, abs(f))
+        i += nn
+        if k == "C":            # "K n" + supplied quads (absent before augmentation)
+            if i < len(t) and t[i] == "K":
+                i += 2 + 6 * int(t[i + 1])
+    return m
+
+
+def in_domain_style(rng, ptoks):
+    """a degenerate stroke style whose outset (half the width times max(miter limit, sqrt 2)) keeps the stroked geometry
+    inside the +-4000 px working range the statement assumes"""
+    for _ in range(20):
+        st = deg_style(rng)
+        t = st.split()
+        w, ml = bits_f32(int(t[1])), bits_f32(int(t[4]))
+        hw = abs(w) / 2 if w == w else 0.0
+        if path_extent(ptoks) + hw * max(ml, 1.4143) < 3999.0:
+            return st
+    return "STYLE %d butt miter %d 0 %d" % (FB(1.0), FB(1.0), FB(0.0))
 
 
 def deg_opts(rng):
@@ -119,7 +161,8 @@ def deg_scene(rng, cid):
         elif c < 0.64:
             ops.append("fill %s %s %s" % (deg_path(rng, W, H), deg_source(rng, W, H), deg_opts(rng)))
         elif c < 0.76:
-            ops.append("stroke %s %s SRC %s %s" % (deg_path(rng, W, H), deg_style(rng), deg_source(rng, W, H), deg_opts(rng)))
+            pth = deg_path(rng, W, H)
+            ops.append("stroke %s %s SRC %s %s" % (pth, in_domain_style(rng, pth), deg_source(rng, W, H), deg_opts(rng)))
         elif c < 0.84:
             v = [rng.choice([0.0, -0.0, 1.0, -3.0, 0.5, 1990.0, -1990.0, float(W), 2.0]) for _ in range(4)]
             if plain and rng.random() < 0.2:     # integer rectangles whose far corner lies beyond the i32 range (integer fast route: identity, no clip)
